@@ -148,6 +148,9 @@ class FuncTranslator:
         self.fresh = 0
         self.raises = self._has_raise(fdef)
         self.uses_rnd = False
+        self.loop_k = []
+        self.has_while = any(isinstance(n, ast.While) for n in ast.walk(fdef))   # own loops: result is an Option
+        self.uses_fuel = self.has_while                                          # takes a `fuel` parameter
 
     @staticmethod
     def _has_raise(fdef):
@@ -217,7 +220,10 @@ class FuncTranslator:
                     self._bind(s.target.id, self.etype(ast.BinOp(left=s.target, op=s.op, right=s.value)))
             elif isinstance(s, ast.Expr):
                 c = s.value
-                if isinstance(c, ast.Call) and isinstance(c.func, ast.Attribute) and c.func.attr == "append":
+                if isinstance(c, ast.Call) and isinstance(c.func, ast.Attribute) and c.func.attr == "extend" \
+                        and isinstance(c.func.value, ast.Name):
+                    self._bind(c.func.value.id, self.etype(c.args[0]))
+                if isinstance(c, ast.Call) and isinstance(c.func, ast.Attribute) and c.func.attr in ("append", "add"):
                     recv = c.func.value
                     et = self.etype(c.args[0])
                     if isinstance(recv, ast.Name):
@@ -230,6 +236,8 @@ class FuncTranslator:
             elif isinstance(s, ast.If):
                 self._infer_block(s.body)
                 self._infer_block(s.orelse)
+            elif isinstance(s, ast.While):
+                self._infer_block(s.body)
 
     def etype(self, e):
         """type of an expression under the current environment (None = not known yet)"""
@@ -303,6 +311,13 @@ class FuncTranslator:
             return TList(t)
         if isinstance(e, ast.Call):
             fn = e.func
+            if isinstance(fn, ast.Attribute) and fn.attr == "copy" and not e.args:
+                return self.etype(fn.value)
+            if isinstance(fn, ast.Attribute) and fn.attr == "pop" and not e.args:
+                t = self.etype(fn.value)
+                return None if t is None else t[1]
+            if isinstance(fn, ast.Name) and fn.id in ("set", "reversed", "list", "sorted") and len(e.args) == 1:
+                return self.etype(e.args[0])
             if isinstance(fn, ast.Name):
                 if fn.id == "round" and len(e.args) == 2:
                     return FLOAT
@@ -503,6 +518,13 @@ class FuncTranslator:
     def call(self, e, expected):
         fn = e.func
         t = self.etype(e)
+        if isinstance(fn, ast.Attribute) and fn.attr == "copy" and not e.args:
+            return self.expr(fn.value, expected)          # values are immutable here: a copy is the value
+        if isinstance(fn, ast.Name) and fn.id in ("set", "list") and len(e.args) == 1:
+            # a set used for membership tests and `.add` only: the list of its elements (order of insertion)
+            return self.expr(e.args[0], expected)
+        if isinstance(fn, ast.Name) and fn.id == "reversed" and len(e.args) == 1:
+            return f"(List.reverse {self.expr(e.args[0], expected)})"
         if isinstance(fn, ast.Name):
             if fn.id == "len":
                 return self.coerce(f"(Py.len {self.expr(e.args[0])})", INT, expected)
@@ -561,6 +583,13 @@ class FuncTranslator:
                 if callee.uses_rnd:
                     self.uses_rnd = True
                     args = ["rnd"] + args
+                if callee.uses_fuel:
+                    # the callee iterates a `while` loop at most `fuel` times; should it run out, its value here is
+                    # `default` (the tie theorems state the fuel above which that cannot happen)
+                    self.uses_fuel = True
+                    args = ["fuel"] + args
+                    if callee.has_while:
+                        return self.coerce(f"(Py.orDefault ({fn.id} " + " ".join(args) + "))", t, expected)
                 return self.coerce(f"({fn.id} " + " ".join(args) + ")", t, expected)
         raise Untranslatable(f"{self.name}: call {ast.dump(fn)[:80]}")
 
@@ -628,10 +657,17 @@ class FuncTranslator:
             if isinstance(s, ast.Assign):
                 for t in s.targets:
                     tgt(t)
+                v = s.value
+                if isinstance(v, ast.Call) and isinstance(v.func, ast.Attribute) and v.func.attr == "pop" \
+                        and isinstance(v.func.value, ast.Name):
+                    add(v.func.value.id)
+            elif isinstance(s, ast.While):
+                for n in FuncTranslator.assigned(s.body):
+                    add(n)
             elif isinstance(s, ast.AugAssign):
                 tgt(s.target)
             elif isinstance(s, ast.Expr) and isinstance(s.value, ast.Call) and isinstance(s.value.func, ast.Attribute) \
-                    and s.value.func.attr == "append":
+                    and s.value.func.attr in ("append", "add", "extend", "sort"):
                 r = s.value.func.value
                 if isinstance(r, ast.Name):
                     add(r.id)
@@ -731,7 +767,7 @@ class FuncTranslator:
         if not stmts:
             return False
         s = stmts[-1]
-        if isinstance(s, (ast.Return, ast.Raise)):
+        if isinstance(s, (ast.Return, ast.Raise, ast.Continue)):
             return True
         if isinstance(s, ast.If):
             return self.terminates(s.body) and self.terminates(s.orelse)
@@ -754,6 +790,20 @@ class FuncTranslator:
             return cont(defined)                      # docstring
         if isinstance(s, ast.Pass):
             return cont(defined)
+        if isinstance(s, ast.Continue):
+            if not self.loop_k:
+                raise Untranslatable("continue outside a translated loop")
+            return self.loop_k[-1](defined)
+        if isinstance(s, ast.While):
+            return self.while_loop(s, rest, k, defined, ind, after_reads)
+        if isinstance(s, ast.Assign) and isinstance(s.targets[0], ast.Name) and isinstance(s.value, ast.Call) \
+                and isinstance(s.value.func, ast.Attribute) and s.value.func.attr == "pop" and not s.value.args \
+                and isinstance(s.value.func.value, ast.Name):
+            src = s.value.func.value.id
+            st_ = self.env.get(src)
+            x = s.targets[0].id
+            return [f"{ind}let {ident(x)} : {lean_type(st_[1])} := Py.last {ident(src)}",
+                    f"{ind}let {ident(src)} : {lean_type(st_)} := List.dropLast {ident(src)}"] + cont(defined | {x})
         if isinstance(s, ast.Assign):
             tgt = s.targets[0]
             if isinstance(tgt, ast.Name):
@@ -791,10 +841,18 @@ class FuncTranslator:
                 recv = c.func.value
                 if isinstance(recv, ast.Name) and recv.id in self.drop:
                     return cont(defined)              # IO on a dropped receiver (my_file.write)
-                if c.func.attr == "append" and isinstance(recv, ast.Name):
+                if c.func.attr in ("append", "add") and isinstance(recv, ast.Name):
                     n = recv.id
                     t = self.env.get(n)
                     return [f"{ind}let {ident(n)} : {lean_type(t)} := {ident(n)} ++ [{self.expr(c.args[0], t[1])}]"] + cont(defined)
+                if c.func.attr == "extend" and isinstance(recv, ast.Name):
+                    n = recv.id
+                    t = self.env.get(n)
+                    return [f"{ind}let {ident(n)} : {lean_type(t)} := {ident(n)} ++ {self.expr(c.args[0], t)}"] + cont(defined)
+                if c.func.attr == "sort" and isinstance(recv, ast.Name) and not c.args and not c.keywords \
+                        and self.env.get(recv.id) == TList(INT):
+                    n = recv.id
+                    return [f"{ind}let {ident(n)} : List (Int) := Py.sortInts {ident(n)}"] + cont(defined)
                 if c.func.attr == "append" and isinstance(recv, ast.Subscript) and isinstance(recv.value, ast.Name):
                     d = recv.value.id
                     dt = self.env.get(d)
@@ -882,7 +940,45 @@ class FuncTranslator:
             return lines + cont(d0)
         raise Untranslatable(f"{self.name}: statement {type(s).__name__}")
 
+    def while_loop(self, s, rest, k, defined, ind, after_reads):
+        """`while c: body` — iterated at most `fuel` times (`Py.whileFuel`); running out of fuel makes the whole
+        function return `none`.  `continue` ends the current iteration.  Supported only at the top level of a
+        function that neither raises nor returns from inside the loop."""
+        if s.orelse or any(isinstance(n, (ast.Return, ast.Raise, ast.Break)) for b in s.body for n in ast.walk(b)):
+            raise Untranslatable(f"{self.name}: return/raise/break inside a while loop")
+        if self.raises:
+            raise Untranslatable(f"{self.name}: while loop in a function that raises")
+
+        def later_reads(name):
+            return any(self.reads(x, name) for x in rest) or after_reads(name)
+        cand = self.assigned(s.body)
+        carried = [n for n in cand if n in defined or later_reads(n) or not self.safe_local(n, s.body)]
+        lines = []
+        for n in carried:
+            if n not in defined:
+                lines.append(f"{ind}let {ident(n)} : {lean_type(self.env[n])} := default")
+        d0 = defined | set(carried)
+        st = self.new("st")
+        pt = self.pack_type(carried)
+        body_ind = ind + "      "
+        cond_lines = self.unpack(carried, st, ind + "      ")
+        lines += [f"{ind}match Py.whileFuel fuel (fun ({st} : {pt}) => ("]
+        lines += cond_lines + [f"{ind}      decide {self.cond(s.test)}"]
+        lines += [f"{ind}    )) (fun ({st} : {pt}) => ("]
+        lines += self.unpack(carried, st, body_ind)
+        end = (lambda d: [f"{body_ind}{self.pack(carried)}"])
+        self.loop_k.append(end)
+        lines += self.block(s.body, end, d0, body_ind, lambda n: n in carried)
+        self.loop_k.pop()
+        lines += [f"{ind}    )) {self.pack(carried)} with"]
+        lines += [f"{ind}| none => none"]
+        lines += [f"{ind}| some {st} =>"]
+        lines += self.unpack(carried, st, ind + "  ")
+        return lines + self.block(rest, k, d0, ind + "  ", after_reads)
+
     def ret(self, val, ind):
+        if self.has_while:
+            return [f"{ind}(some {val})"]
         if self.raises:
             return [f"{ind}(Except.ok {val})"]
         return [f"{ind}{val}"]
@@ -933,9 +1029,13 @@ class FuncTranslator:
         params = " ".join(f"({ident(p)} : {lean_type(self.ptypes[p])})" for p in self.params if p not in self.drop)
         if self.uses_rnd:
             params = "(rnd : Float → Int → Float) " + params
+        if self.uses_fuel:
+            params = "(fuel : Nat) " + params
         tvars = sorted({x[1] for x in _walk_types(list(self.ptypes.values()) + [rt]) if x[0] == "Var"})
         tv = "".join(f" {{{v} : Type}} [Inhabited {v}]" for v in tvars)
         rts = lean_type(rt)
+        if self.has_while:
+            rts = f"Option ({rts})"
         if self.raises:
             rts = f"Except String ({rts})"
         return f"def {self.name}{tv} {params} : {rts} :=\n" + "\n".join(lines) + "\n"
